@@ -315,6 +315,10 @@ class Struct(metaclass=MetaStruct):
 
     @classmethod
     def _to_buffer(cls, buffer, offset, value, info=None):
+        if isinstance(value, tuple) and len(value) == 1:
+            # constructor arguments given as a tuple (see dispatch_arg):
+            # sized from what the tuple holds, written from it as well
+            value = value[0]
         if isinstance(value, cls) and not cls._has_refs:  # binary copy
             buffer.update_from_xbuffer(
                 offset, value._buffer, value._offset, value._size
